@@ -251,7 +251,8 @@ Expect(ncall) ==          \* of a normalised call
             /\ Firsts(ncall.modifiers) \subseteq World[ncall.ws].modifiers /\ Firsts(ncall.measurements) \subseteq MeasNamesOf(ncall.ws)
          THEN "ok" ELSE "fail"
     [] ncall.fn = "Workspace.combine" ->
-         IF ncall.merge_channels = "True" /\ ncall.join \notin {"left outer", "right outer"} THEN "fail" ELSE "lib"
+         \* Workspace.combine: merge_channels "is only done with outer, left outer, and right outer" (the click help still says left/right only)
+         IF ncall.merge_channels = "True" /\ ncall.join = "none" THEN "fail" ELSE "lib"
     [] ncall.fn = "Workspace.sorted" -> "ok"
     [] ncall.fn = "utils.digest" -> IF SeqToSet(ncall.algorithms) \subseteq Hashlib THEN "ok" ELSE "fail"
     [] ncall.fn = "PatchSet.getitem" -> IF ncall.name \in PatchSetNames THEN "ok" ELSE "fail"
